@@ -47,6 +47,9 @@ Check(r, idx) ==
         writtenVals(k) == {w.v : w \in {y \in wcalls : y.k = k}} \cup {50, 7777}
         invented == {x \in rets : (x.err = "" \/ (x.err = "err" /\ x.op = "Get")) /\ x.op \in {"Get", "BulkGet"}
                                    /\ x.v \notin loadedVals(x.k) \cup writtenVals(x.k)}
+        \* a BulkGet may leave a requested key out (without an error) only if a loader run that had finished by then reported it not found
+        bulkMissing == {x \in rets : x.op = "BulkGet" /\ x.err = "absent"
+                                     /\ ~\E y \in exits : y.k = x.k /\ y.err = "nf" /\ y.seq < x.seq}
         joinBad == {x \in rets : x.op = "Get" /\ x.err = "nf" /\ ~\E y \in exits : y.k = x.k /\ y.err = "nf"}
         \* C09: the final value of key 1
         fin(k) == {f.v : f \in {y \in SeqToSet(r.final) : y.k = k}}
@@ -68,6 +71,7 @@ Check(r, idx) ==
     \o (IF r.inflight # 0 THEN <<F(idx, "C08.inflight_left", r.inflight)>> ELSE <<>>)
     \o (IF r.inflight = 0 /\ r.hung = 0 /\ r.afresh # 1 THEN <<F(idx, "C08.not_afresh", r.afresh)>> ELSE <<>>)
     \o (IF invented # {} THEN <<F(idx, "C08.invented_result", invented)>> ELSE <<>>)
+    \o (IF bulkMissing # {} THEN <<F(idx, "C08.bulk_result_missing", bulkMissing)>> ELSE <<>>)
     \o (IF joinBad # {} THEN <<F(idx, "C08.notfound_without_loader", joinBad)>> ELSE <<>>)
     \o (IF stale # {} THEN <<F(idx, "C09.stale_install", <<stale, r.final>>)>> ELSE <<>>)
     \o (IF \E w \in lastW : w.k = 1 /\ fin(1) # {w.v} THEN <<F(idx, "C09.write_lost", <<lastW, r.final>>)>> ELSE <<>>)
